@@ -773,6 +773,17 @@ REF_SQL = ('CREATE TABLE Ab (Id UNIQUE_ID, R_a UNIQUE_ID);\n'
            'CREATE UNIQUE INDEX I1 ON Cd (K_c);\n'
            'CREATE UNIQUE INDEX I1 ON Ef (Id);\n')
 REF_WHO = ('a', 'c1', 'c2', 'e')
+# layouts of the referential family: 'chain' creates the four instances through the API; the 'loaded' layouts read them
+# from INSERT statements whose references are null -- written as the null id in positional rows, or left out of named
+# rows (round 8, C10-15): the loader must leave no stored value behind for a referential attribute
+_Z = '"00000000-0000-0000-0000-0000000000%02d"'
+REF_ROWS = {
+    'loaded-zero': ('INSERT INTO Ab VALUES (%s, %s);\nINSERT INTO Cd VALUES (%s, 1);\nINSERT INTO Cd VALUES (%s, 2);\n'
+                    'INSERT INTO Ef VALUES (%s);\n' % (_Z % 1, _Z % 0, _Z % 0, _Z % 0, _Z % 5)),
+    'loaded-absent': ('INSERT INTO Ab (Id) VALUES (%s);\nINSERT INTO Cd (Nm) VALUES (1);\nINSERT INTO Cd (nm) VALUES (2);\n'
+                      'INSERT INTO Ef (ID) VALUES (%s);\n' % (_Z % 1, _Z % 5)),
+}
+REF_LAYOUTS = ['chain'] + sorted(REF_ROWS)
 REF_KIND = {'a': 'Ab', 'c1': 'Cd', 'c2': 'Cd', 'e': 'Ef'}
 REF_ATTR = {'a': 'R_a', 'c1': 'K_c', 'c2': 'K_c', 'e': 'Id'}      # the attribute observed on each instance
 REF_EID = [5, 6]          # values of the root identifier (written under every spelling)
@@ -797,9 +808,15 @@ class RefModel(explorer.Model):
         w = World()
         l = xtuml.ModelLoader()
         l.input(REF_SQL)
+        if self.layout in REF_ROWS:
+            l.input(REF_ROWS[self.layout])
         w.m = l.build_metamodel(xtuml.IntegerGenerator())
-        w.inst = {'a': w.m.new('Ab', Id=1), 'c1': w.m.new('Cd', Nm=1), 'c2': w.m.new('Cd', Nm=2),
-                  'e': w.m.new('Ef', Id=REF_EID[0])}
+        if self.layout in REF_ROWS:
+            cs = sorted(w.m.select_many('Cd'), key=lambda c: c.Nm)
+            w.inst = {'a': w.m.select_any('Ab'), 'c1': cs[0], 'c2': cs[1], 'e': w.m.select_any('Ef')}
+        else:
+            w.inst = {'a': w.m.new('Ab', Id=1), 'c1': w.m.new('Cd', Nm=1), 'c2': w.m.new('Cd', Nm=2),
+                      'e': w.m.new('Ef', Id=REF_EID[0])}
         w.alive = dict((who, True) for who in REF_WHO)
         w.l1 = None            # the Cd instance a is related to
         w.l2 = []              # the Cd instances related to e
@@ -902,8 +919,8 @@ class RefModel(explorer.Model):
         case = self.case(hist, op)
 
         def bad(kind, msg, exp=None, got=None):
-            ctx.violation('c10:ref:%s' % kind, case, '[referential chain] history %s, then %s: %s' % (hist, op, msg), exp, got,
-                          unit_test=ref_unit_test(hist, op))
+            ctx.violation('c10:ref:%s' % kind, case, '[referential chain, %s] history %s, then %s: %s' % (self.layout, hist, op, msg), exp, got,
+                          unit_test=ref_unit_test(hist, op, self.layout))
         ctx.count('traces')
         ctx.count('ref_traces')
         got, exp = self.step(w, op)
@@ -961,15 +978,19 @@ class RefModel(explorer.Model):
         case = self.case(hist, ['probe'])
 
         def bad(kind, msg, exp=None, got=None):
-            ctx.violation('c10:ref:%s' % kind, case, '[referential chain] state %s: %s' % (hist, msg), exp, got,
-                          unit_test=ref_unit_test(hist, None))
+            ctx.violation('c10:ref:%s' % kind, case, '[referential chain, %s] state %s: %s' % (self.layout, hist, msg), exp, got,
+                          unit_test=ref_unit_test(hist, None, self.layout))
         self.check_reads(ctx, w, bad, 'state')
 
 
-def ref_unit_test(hist, op):
-    lines = ['import xtuml', 'l = xtuml.ModelLoader()', 'l.input(%r)' % REF_SQL,
-             'm = l.build_metamodel(xtuml.IntegerGenerator())',
-             "a = m.new('Ab', Id=1); c1 = m.new('Cd', Nm=1); c2 = m.new('Cd', Nm=2); e = m.new('Ef', Id=%d)" % REF_EID[0]]
+def ref_unit_test(hist, op, layout='chain'):
+    lines = ['import xtuml', 'l = xtuml.ModelLoader()', 'l.input(%r)' % REF_SQL]
+    if layout in REF_ROWS:
+        lines += ['l.input(%r)' % REF_ROWS[layout], 'm = l.build_metamodel(xtuml.IntegerGenerator())',
+                  "a = m.select_any('Ab'); c1, c2 = sorted(m.select_many('Cd'), key=lambda c: c.Nm); e = m.select_any('Ef')"]
+    else:
+        lines += ['m = l.build_metamodel(xtuml.IntegerGenerator())',
+                  "a = m.new('Ab', Id=1); c1 = m.new('Cd', Nm=1); c2 = m.new('Cd', Nm=2); e = m.new('Ef', Id=%d)" % REF_EID[0]]
 
     def stmt(o):
         if o[0] == 'set':
@@ -1655,7 +1676,7 @@ def run(ctx):
     for h in hs[-3:]:
         ctx.sample(dict(history=h))
     ctx.require(res['states'] >= 100, 'too few states (%d)' % res['states'])
-    specs = [('twin', layout) for layout in TWIN_LAYOUTS] + [('ref', 'chain')] + [('def', 'empty')] + \
+    specs = [('twin', layout) for layout in TWIN_LAYOUTS] + [('ref', layout) for layout in REF_LAYOUTS] + [('def', 'empty')] + \
             [('palette', layout) for layout in palette_layouts(ctx.tier)]
     t1 = ctx.elapsed()
     r = family_bfs(ctx, specs)
@@ -1675,6 +1696,8 @@ def run(ctx):
         ctx.require(r2['per_layout'].get(layout, 0) >= 30, 'twin family %s: too few states (%s)' % (layout, r2['per_layout']))
     ctx.require(ctx.n('twin_traces') >= 3000, 'twin family: too few transitions (%d)' % ctx.n('twin_traces'))
     ctx.require(r3['states'] >= 60, 'referential family: too few states (%d)' % r3['states'])
+    for layout in REF_LAYOUTS:
+        ctx.require(r3['per_layout'].get(layout, 0) >= 20, 'referential family, layout %s: too few states (%s)' % (layout, r3['per_layout']))
     ctx.require(ctx.n('ref_traces') >= 2000, 'referential family: too few transitions (%d)' % ctx.n('ref_traces'))
     for o in ('relate', 'unrelate', 'delete'):
         ctx.require(h_has(ctx, 'ref_outcomes', (o, 'True' if o.endswith('relate') else 'ok')),
